@@ -139,6 +139,7 @@ pub fn spec_c10() -> PropSpec {
     pf.max_steps = 40;
     pf.min_steps = 8;
     pf.episode_pct = 10;
+    pf.spec_shape_pct = 30;
     PropSpec {
         id: "C10",
         profile: pf,
